@@ -3,7 +3,7 @@
     Paths mirror the JSON emitted by the correspondence runner (/verif/runner), so that
     the comparator is a generic key-by-key diff. *)
 From Coq Require Import String DecimalString.
-From Cteepbd Require Export Model.Balance.
+From Cteepbd Require Export Model.Balance Model.Cte.
 Open Scope string_scope.
 Open Scope Qc_scope.
 
@@ -160,6 +160,13 @@ Definition factor_rows (f : Factor) : list row :=
 Fixpoint factors_rows_from (n : nat) (l : list Factor) : list row :=
   match l with [] => [] | f :: l => pre (nat_str n) (factor_rows f) ++ factors_rows_from (S n) l end.
 Definition dump_factors (l : list Factor) : list row := factors_rows_from 0 l.
+
+(** the DHW renewable fraction of a result *)
+Definition acs_outcome (r : res EP) : outcome :=
+  match r with
+  | Ok ep => outcome_of (fraccion_renovable_acs_nrb ep) (fun q => [("acs", q)])
+  | Err k => OutErr ("EP:" ++ errkind_name k)
+  end.
 
 (** input helpers used by generated case files *)
 Definition Q (n : Z) (d : positive) : Qc := qfrac n d.
